@@ -37,6 +37,11 @@ C("C16", "proof",
   "Trusted: Coq kernel, extraction, driver, the OS-call shim (wb_exec.py) and its mapping of calls to model steps (a changed call sequence is itself reported). Assumes POSIX rename atomicity and that a killed process leaves the effects of completed calls intact; torn writes inside one os.replace are outside the model.",
   "Coq proof (all schedules) + exhaustive fault enumeration against the real function", "5/C16")
 
+C("C15", "exploration",
+  "Partial. Proved in Coq (all file lists, all worker completion orders, any job count): the results handed to main's aggregation by the Pool.imap loop are those of the sequential loop - apply_rules of each file in command-line order up to and including the first stop - and the exit status is their OR (results_independent, no_stop_all, exit_status_or). These theorems assume apply_rules is a pure function of the file; that purity (module globals, the shared configuration object mutated by per-file overrides, worker processes handling several files) is runtime behaviour no theorem here exhibits, so it is explored: batches with rejected files and per-file file_rules overrides are run in several orders and job counts, in check and --fix mode, and every part of every file's result (report block, JSON entry, JUnit case, error line, fixed text, exit contribution, output order) is compared with the single-file -p 1 run; --stdin is compared with by-name.",
+  "Trusted: Coq kernel for the scheduler theorems; the CLI differential harness. multiprocessing, pickling of the configuration per task and OS scheduling are exercised, not modelled.",
+  "Coq proof of the job loop + CLI differential exploration of cross-file purity", "5/C15")
+
 NA_REASON = "check not built yet in this round (see DESIGN.md section 10 build order); nothing is claimed for it"
 ALL = ["C%02d" % i for i in range(1, 21)]
 m = dict(version=1, setup_cmd="./bin/setup",
